@@ -48,12 +48,14 @@ func (c *checkSchema) checkType(name string, typ ischema.Type, ss map[string]isc
 
 		// Return an error with the full set of bytes of the root schema.
 		if jErr, ok := r.(kit.JSchemaError); ok {
+			if len(name) != 0 && name[0] == '#' {
+				// An unnamed (`or` rule-set) type is written inside the file its
+				// lexemes point into: the error position is already right.
+				panic(jErr)
+			}
 			jErr.SetFile(typ.RootFile)
 			jErr.SetIndex(bytes.Index(jErr.Index()) + typ.Begin)
-			if len(name) == 0 || name[0] != '#' {
-				// The internal name of an unnamed (`or` rule-set) type is a heap address.
-				jErr.SetIncorrectUserType(name)
-			}
+			jErr.SetIncorrectUserType(name)
 			panic(jErr)
 		}
 
